@@ -24,9 +24,9 @@ var solvers = []solver{
 	}},
 }
 
-// useOldZ3: z3 4.8.12 answered `unsat` on satisfiable quantified queries (DESIGN 11.6 E12), so it
-// takes no part in deciding obligations unless VERIF_OLDZ3=1 asks for it (experiments only).
-var useOldZ3 = os.Getenv("VERIF_OLDZ3") == "1"
+// useOldZ3: z3 4.8.12 races with the other two unless VERIF_OLDZ3=0 (DESIGN 11.6 E12: its `unsat`
+// on a cover query, first taken for a solver bug, exposed an inconsistent axiom).
+var useOldZ3 = os.Getenv("VERIF_OLDZ3") != "0"
 
 type solveResult struct {
 	result  string // unsat, sat, unknown
@@ -165,7 +165,12 @@ func (g *Gen) discharge(obls []*Obligation, workDir string, timeoutS int, all bo
 			skipCvc5 := strings.Contains(q, "(lambda ")
 			if o.Cover {
 				// vacuity guard: fails only if the hypotheses are refuted outright
-				r := runSolvers(fn, 2, false, skipCvc5)
+				// (quick: 4 s; thorough: 20 s and every solver is heard)
+				ct := 4
+				if all {
+					ct = 20
+				}
+				r := runSolvers(fn, ct, false, skipCvc5)
 				o.Result, o.Backend, o.Ms, o.Output = r.result, r.backend, r.ms, r.output
 				return
 			}
